@@ -25,7 +25,7 @@ SCHED = ['kb_schedule_1v1a', 'kb_schedule_2v1a', 'kb_schedule_1v2a']
 SCHED_T = ['kb_schedule_2v2a']
 FROMS = ['kb_from_samples_0', 'kb_from_samples_1', 'kb_from_samples_2']
 FROMS_T = ['kb_from_samples_3']
-KEYF = ['kb_is_keyframe_h264', 'kb_is_keyframe_h265', 'kb_is_keyframe_av1_vp9']
+KEYF = ['kb_parsers_vp9_opus_small', 'kb_is_keyframe_h264', 'kb_is_keyframe_h265', 'kb_is_keyframe_av1_vp9']
 LANG = ['k_lang', 'k_lang_und', 'k_lang_frag', 'kb_lang_any_utf8', 'kb_lang_frag_any_utf8']
 
 PROPS = {
@@ -63,7 +63,7 @@ PROPS = {
                 'when the accept predicate transcribed from the property statement holds in the current abstract state, and each error variant is proved to name a conjunct that this call violated; payload validators '
                 '(ADTS, Opus, parameter-set extraction) are proved against their specifications.',
         'note': FLOAT + '; ' + A3 + '; ' + A5,
-        'kani': ['kb_is_keyframe_h264'], 'assumptions': [FLOAT, A3, A5],
+        'kani': ['kb_is_keyframe_h264', 'kb_is_keyframe_h265'], 'assumptions': [FLOAT, A3, A5],
     },
     'C05': {
         'title': 'Rejected calls leave no trace',
